@@ -91,15 +91,15 @@ type handle struct {
 }
 
 type srcState struct {
-	idx     int
-	spec    SourceSpec
-	wa      dials.WatchArgs
-	typ     *dials.Type
-	blank   *sourcewrap.Blank
-	src     dials.Source
-	handed  []handed
-	doneAt  int
-	subs    map[string]*subState // reporter client -> what it has submitted
+	idx    int
+	spec   SourceSpec
+	wa     dials.WatchArgs
+	typ    *dials.Type
+	blank  *sourcewrap.Blank
+	src    dials.Source
+	handed []handed
+	doneAt int
+	subs   map[string]*subState // reporter client -> what it has submitted
 }
 
 // subState: the last part a client surely delivered to the monitor, and the
@@ -146,27 +146,28 @@ type Run struct {
 	parts    map[uint64]*Part
 	owner    map[uint64]int
 
-	installs []Install
-	byPtr    map[*CfgCore]int
-	verifies []VerifyRec
-	cbs      []*CBRec
-	ops      []*OpRec
-	handles  []*handle
-	named    map[string]context.CancelFunc
-	started  map[string]bool
-	never    chan struct{}
-	clients  int
-	finished int
-	maxQueue int
-	cbSeen   int
-	addrDone int
-	regions  map[int][]region
-	lateOps  []*OpRec
+	installs          []Install
+	byPtr             map[*CfgCore]int
+	verifies          []VerifyRec
+	cbs               []*CBRec
+	ops               []*OpRec
+	handles           []*handle
+	named             map[string]context.CancelFunc
+	started           map[string]bool
+	never             chan struct{}
+	clients           int
+	finished          int
+	maxQueue          int
+	cbSeen            int
+	addrDone          int
+	regions           map[int][]region
+	lateOps           []*OpRec
+	defaultsScribbled bool
 
-	viol    []Violation
-	probes  map[string]int
-	freshFP map[[4]uint64]*freshRes
-	phase   string
+	viol      []Violation
+	probes    map[string]int
+	freshFP   map[[4]uint64]*freshRes
+	phase     string
 	enabledAt int
 }
 
